@@ -10,6 +10,7 @@ from httoop.status import (
 	BAD_REQUEST, HTTP_VERSION_NOT_SUPPORTED, LENGTH_REQUIRED, MOVED_PERMANENTLY, SWITCHING_PROTOCOLS,
 	URI_TOO_LONG,
 )
+from httoop.uri import URI
 from httoop.util import Unicode, _
 from httoop.version import ServerHeader, ServerProtocol
 
@@ -105,7 +106,7 @@ class ServerStateMachine(StateMachine):
 			canonical = self.message.uri.path
 			if path.startswith(u'/') and not canonical.startswith(u'/'):
 				canonical = u'/%s' % (canonical, )  # an absolute path stays absolute: "/../a" is "/a"
-			raise MOVED_PERMANENTLY(canonical.encode('UTF-8'))
+			raise MOVED_PERMANENTLY(URI(path=canonical))  # the path is text: compose (percent-encode) it, do not parse it
 
 	def validate_request_uri_scheme(self) -> None:
 		if self.message.uri.scheme:
